@@ -4,6 +4,7 @@
 
 import html
 import math
+import posixpath
 import re
 import urllib.parse
 from collections.abc import Callable, Sequence
@@ -1737,7 +1738,7 @@ def rel2abs_fn(
 ) -> str:
     # https://www.mediawiki.org/wiki/Help:Extension:ParserFunctions##rel2abs
     # https://github.com/wikimedia/mediawiki-extensions-ParserFunctions/blob/ea4d4d94ee0c55b6039e05650ccc322e106ae06b/includes/ParserFunctions.php#L319
-    original_path_str = args[0].strip()
+    original_path_str = args[0].strip() if args else ""
     path = Path(original_path_str.removeprefix("/"))
     base_path = Path("/" + (wtp.title or ""))
     if len(args) > 1:
@@ -1749,7 +1750,9 @@ def rel2abs_fn(
     ):
         base_path = Path("/")
     path = base_path / path
-    return str(path.resolve()).removeprefix("/")
+    # Normalize lexically: Path.resolve() would consult the host file
+    # system (following its symlinks) and raises on a NUL character
+    return posixpath.normpath(str(path)).removeprefix("/")
 
 
 def int_fn(
